@@ -2,9 +2,11 @@ package main
 
 import (
 	"crypto/sha256"
+
 	"fmt"
 	"sync"
 	"time"
+	"verif/internal/oracle/cfg"
 
 	"verif/internal/evidence"
 	"verif/internal/gram"
@@ -44,6 +46,12 @@ func checkActions(c *Ctx, bounds bool) error {
 	}
 	d := newDrawer()
 	o := drawOpts{errPct: 0, bounds: 0, minSent: 2}
+	if bounds {
+		// a third of the grammars have @error productions: lexer ERROR tokens
+		// placed where the grammar has @error are shifted like any token (no
+		// recovery involved) and must get bounds too
+		o.errPct = 35
+	}
 	fastOK := true
 	var mu sync.Mutex
 	doBatch := func(bi int) {
@@ -88,6 +96,9 @@ func checkActions(c *Ctx, bounds bool) error {
 		actionsRunBatch(c, r, b, cases, bounds)
 	}
 	doBatch(0)
+	if !bounds {
+		wideProductions(c)
+	}
 	parallel(nBatches-1, 4, func(i int) { doBatch(i + 1) })
 	c.Ev.Set("grammars_drawn", d.drawn)
 	c.nontrivMin = 200
@@ -123,6 +134,16 @@ func actionsRunBatch(c *Ctx, r *rng.R, b *run.Batch, cases []*PCase, bounds bool
 		for k := 0; k < c.N(15, 40); k++ {
 			if w := pc.Eng.RandomSentence(rr.Intn, 6+rr.Intn(35)); w != nil {
 				ws = append(ws, w)
+			}
+		}
+		if bounds && pc.G.HasErr() {
+			// sentences of the grammar with @error read as the ERROR token
+			full := cfg.New(toCfg(pc.C))
+			full.Enumerate(8, 25, func(w []int) bool { ws = append(ws, w); return true })
+			for k := 0; k < c.N(15, 30); k++ {
+				if w := full.RandomSentence(rr.Intn, 4+rr.Intn(25)); w != nil {
+					ws = append(ws, w)
+				}
 			}
 		}
 		for _, w := range ws {
@@ -191,7 +212,16 @@ func actionsRunBatch(c *Ctx, r *rng.R, b *run.Batch, cases []*PCase, bounds bool
 			c.Violation(kind, pc.replay(fmt.Sprintf("%s: input [%s] (bounds=%v): %s", kind, tokString(pc.G, w), pc.Opt.Bounds, why),
 				[]hc.Job{run.MkJob(1, "", "parse", pj)}, expected, observed))
 		}
-		if res.Panic != "" || res.Stop != "" || !res.OK || res.NErr != 0 {
+		hasErrTok := false
+		for _, t := range it.toks {
+			if t.Type == 1 {
+				hasErrTok = true
+			}
+		}
+		if hasErrTok {
+			c.Ev.Count("inputs_with_shifted_ERROR_tokens", 1)
+		}
+		if res.Panic != "" || res.Stop != "" || !res.OK || (res.NErr != 0 && !hasErrTok) {
 			report("sentence-not-parsed-cleanly", fmt.Sprintf("ok=%v nerr=%d stop=%q panic=%q", res.OK, res.NErr, res.Stop, firstLine(res.Panic)), nil, res)
 			continue
 		}
@@ -264,6 +294,102 @@ func census(c *Ctx, pc *PCase, evs []hc.Event) {
 				state = "many"
 			}
 			c.Ev.Count(fmt.Sprintf("census_sugar%s_slot%d_%s", t.Sugar, i, state), 1)
+		}
+	}
+}
+
+// wideProductions is a fixed boundary case: productions with 254, 255, 256,
+// 257 and 300 terms (anything the generator packs per production — term
+// counts, stack offsets — must not wrap at a byte).
+func wideProductions(c *Ctx) {
+	g := &gram.Grammar{Tokens: []gram.Token{{Name: "A", Lit: "a"}, {Name: "B", Lit: "b"}, {Name: "C", Lit: "c"}, {Name: "D", Lit: "d"}, {Name: "E", Lit: "e"}, {Name: "N", Lit: "n"}}}
+	tok := func(i int) gram.Term { return gram.Term{Ref: gram.Ref{Kind: gram.KTok, Idx: i}} }
+	widths := []int{254, 255, 256, 257, 300}
+	rec := gram.Rule{Name: "rec"}
+	for k, w := range widths {
+		p := gram.Prod{Terms: []gram.Term{tok(k)}}
+		for i := 1; i < w; i++ {
+			p.Terms = append(p.Terms, tok(5))
+		}
+		rec.Prods = append(rec.Prods, p)
+	}
+	g.Rules = []gram.Rule{
+		{Name: "file", Prods: []gram.Prod{{Terms: []gram.Term{{Ref: gram.Ref{Kind: gram.KRule, Idx: 1}, Sugar: gram.Star}}}}},
+		rec,
+	}
+	pc := &PCase{G: g, Origin: "wide-productions"}
+	pc.C = g.Desugar(false)
+	tbl, free, ok := refConflictFree(pc.C)
+	if !ok || !free {
+		c.Inconclusive("wide-production-grammar-over-reference-budget")
+		return
+	}
+	pc.Ref = tbl
+	pc.Opt = gram.HarnessOpt{}
+	pc.prepare()
+	b, err := genBatch(c, []*PCase{pc}, false, false)
+	if err != nil {
+		c.Inconclusive("batch-build-failed")
+		return
+	}
+	defer b.Remove()
+	c.Ev.Eval(1)
+	if !pc.Pkg.GenOK {
+		c.Violation("valid-grammar-rejected/wide-productions", pc.replay(fmt.Sprintf("lox rejected a grammar with long productions (exit %d):\n%s", pc.Pkg.Exit, tail(pc.Pkg.Diag, 1500)), nil, nil, nil))
+		return
+	}
+	if pc.Pkg.BuildErr != "" {
+		c.Violation("generated-code-does-not-compile", pc.replay(pc.Pkg.BuildErr, nil, nil, nil))
+		return
+	}
+	var jobs []hc.Job
+	var inputs [][]hc.Token
+	mk := func(kinds ...int) {
+		var toks []hc.Token
+		pj := hc.ParseJob{Rec: true}
+		for _, k := range kinds {
+			ts := []int{gram.TokType(k)}
+			for i := 1; i < widths[k]; i++ {
+				ts = append(ts, gram.TokType(5))
+			}
+			for _, t := range ts {
+				toks = append(toks, hc.Token{Type: t, Seq: len(toks) + 1})
+				pj.Toks = append(pj.Toks, [2]int{t, 0})
+			}
+		}
+		inputs = append(inputs, toks)
+		jobs = append(jobs, run.MkJob(len(inputs), pc.Pkg.Name, "parse", pj))
+	}
+	for k := range widths {
+		mk(k)
+	}
+	mk(0, 2, 1)
+	mk(2, 2)
+	mk(4, 3, 2, 1, 0)
+	results, _, _ := b.RunAll(jobs, 3*time.Minute, 20)
+	for i, toks := range inputs {
+		res, err := decodeRes[hc.ParseRes](results[i+1])
+		if err != nil {
+			c.Inconclusive("job-no-result")
+			continue
+		}
+		c.Ev.Eval(1)
+		c.Ev.Count("wide_production_parses", 1)
+		desc := fmt.Sprintf("%d tokens (records with %v-term productions)", len(toks), widths)
+		if !res.OK || res.NErr != 0 || res.Panic != "" || res.Stop != "" {
+			c.Violation("sentence-not-parsed-cleanly/wide-productions", pc.replay(fmt.Sprintf("input of %s: ok=%v nerr=%d stop=%q panic=%q", desc, res.OK, res.NErr, res.Stop, firstLine(res.Panic)), []hc.Job{jobs[i]}, nil, nil))
+			continue
+		}
+		exp, err := sem.Simulate(pc.G, pc.C, pc.Ref, pc.Opt, toks)
+		if err != nil {
+			c.Inconclusive("reference-parser-failed")
+			continue
+		}
+		if diff := sem.Compare(exp, res.Events); diff != "" {
+			if len(diff) > 600 {
+				diff = diff[:600] + "..."
+			}
+			c.Violation("action-calls-differ/wide-productions", pc.replay(fmt.Sprintf("input of %s: %s", desc, diff), []hc.Job{jobs[i]}, nil, nil))
 		}
 	}
 }
